@@ -1,4 +1,261 @@
 import FqModel.Proto
-/-! driver for C05 (stub — replaced by the property's own driver) -/
-open FqModel.Proto
-def main : IO Unit := run (fun _ _ => "BADOP driver-stub")
+import FqModel.ToBits
+/-!
+  driver for C05.  One case line per decode value (all operations on it = one history):
+
+    v src=<S> path=<P> L=<buffer bits> r=<start>:<len> fl=<flags> w=<byte off>:<hex window> ops=<op,…>  TAB  <obs;…>
+
+  flags: R dv.IsRoot, T top-level value (the decoded input itself), S synthetic, W raw bits value,
+         N value of a nested buffer, F root whose Range is in its own buffer's coordinates
+         (Field{Struct,Array}RootBitBufFn; Range.Start of the other roots is a position in the PARENT).
+  ops:   tobits | tobytes | tobits:P | tobytes:P | fmt:F:SB | rfmt8:F:SB | rfmt1:F:SB | stdout | stdoutr
+  obs:   b:<unit>:<nbits>:<hex>  (a Binary: bits, right zero padded to bytes) | s:<hex> (a string)
+         | a:<hex> (an array of ints 0..255) | o:<hex> (raw stdout) | err:<kind>
+
+  For every operation the driver
+    (1) computes the MODEL's observation (FqModel.ToBits, the transliterated code path) and compares;
+    (2) evaluates the PROPERTY on the implementation's observation: the bits it encodes are
+        `valueBits buffer start len` (for a root value: start 0; for the top value: the whole
+        input) — padding only where the property allows it, and zero.  (2) does not go through
+        `innerRange`/`toBinary`/`toReader`; it uses the specification `valueBits`, the decoders
+        of the textual formats, and `packR` for the byte boundary.
+  The window is a byte-aligned part of the buffer that contains the expected range; the model is
+  run on the window with the range shifted (Proofs.C05: `slice_window`).
+-/
+open FqModel FqModel.ToBits FqModel.Proto
+
+namespace DrvC05
+
+structure Case where
+  L : Nat
+  start : Nat
+  len : Nat
+  isRoot : Bool
+  top : Bool
+  synth : Bool
+  raw : Bool
+  ownCoord : Bool
+  woff : Nat
+  wbytes : List UInt8
+  ops : List String
+
+def kv (ws : List String) (k : String) : Option String :=
+  ws.findSome? fun w => if w.startsWith (k ++ "=") then some ((w.drop (k.length + 1)).toString) else none
+
+def parseCase (op : String) : Option Case := do
+  let ws := words op
+  guard (ws.head? == some "v")
+  let L ← (← kv ws "L").toNat?
+  let r ← kv ws "r"
+  let (start, len) ← match r.splitOn ":" with
+    | [a, b] => do pure (← a.toNat?, ← b.toNat?)
+    | _ => none
+  let fl ← kv ws "fl"
+  let w ← kv ws "w"
+  let (woff, wb) ← match w.splitOn ":" with
+    | [a, b] => do pure (← a.toNat?, ← bytesOfHex b)
+    | _ => none
+  let ops := ((← kv ws "ops").splitOn ",").filter (· ≠ "")
+  pure { L, start, len, isRoot := fl.contains 'R', top := fl.contains 'T', synth := fl.contains 'S',
+         raw := fl.contains 'W', ownCoord := fl.contains 'F', woff, wbytes := wb, ops }
+
+/-- the part of the buffer that the window shows -/
+def Case.wbits (c : Case) : Bits := (bytesToBits c.wbytes).take (c.L - 8 * c.woff)
+
+/-- the value as the model sees it, in window coordinates -/
+def Case.dv (c : Case) : Option DV :=
+  if c.isRoot then
+    if c.woff = 0 then some { root := c.wbits, start := c.start, len := c.len, isRoot := true, synthetic := c.synth }
+    else none
+  else if 8 * c.woff ≤ c.start then
+    some { root := c.wbits, start := c.start - 8 * c.woff, len := c.len, isRoot := false, synthetic := c.synth }
+  else none
+
+def hexOrDash (bs : List UInt8) : String := if bs.isEmpty then "-" else hexOfBytes bs
+
+def asciiBytes (cs : List Char) : List UInt8 := cs.map fun c => UInt8.ofNat c.toNat
+
+def showBinary (b : Binary) : String :=
+  match b.content with
+  | .ok bits => s!"b:{b.unit}:{bits.length}:{hexOrDash (packR bits)}"
+  | .err e => s!"err:{e}"
+  | .panic w => s!"panic:{w}"
+
+def showRes {α} (f : α → String) : Res α → String
+  | .ok a => f a
+  | .err e => s!"err:{e}"
+  | .panic w => s!"panic:{w}"
+
+def showRendered : Rendered → String
+  | .bytes b => s!"s:{hexOrDash b}"
+  | .text t => s!"s:{hexOrDash (asciiBytes t)}"
+  | .ints a => s!"a:{hexOrDash (a.map UInt8.ofNat)}"
+
+/-- the model's observation for one operation -/
+def modelObs (v : DV) (op : String) : Option String :=
+  match op.splitOn ":" with
+  | ["tobits"] => some (showRes showBinary (toBitsOp 1 0 false v))
+  | ["tobytes"] => some (showRes showBinary (toBitsOp 8 0 false v))
+  | ["tobits", p] => p.toNat?.map fun p => showRes showBinary (toBitsOp 1 p false v)
+  | ["tobytes", p] => p.toNat?.map fun p => showRes showBinary (toBitsOp 8 p false v)
+  | ["fmt", f, sb] => sb.toNat?.map fun sb => showRes showRendered (toValueRaw f sb v)
+  | ["rfmt8", f, sb] => sb.toNat?.map fun sb => showRes showRendered (toValueRange 8 f sb v)
+  | ["rfmt1", f, sb] => sb.toNat?.map fun sb => showRes showRendered (toValueRange 1 f sb v)
+  | ["stdout"] => some (showRes (fun b => s!"o:{hexOrDash b}") (rawStdoutToBytes v))
+  | ["stdoutr"] => some (showRes (fun b => s!"o:{hexOrDash b}") (rawStdoutRange v))
+  | _ => none
+
+/-! ### the property predicate -/
+
+def allFalse (bs : Bits) : Bool := bs.all (· == false)
+
+/-- `bytes` are exactly `bits` zero-padded on the right to a byte boundary -/
+def rightPaddedEq (bytes : List UInt8) (bits : Bits) : Bool :=
+  let bb := bytesToBits bytes
+  bytes.length == (bits.length + 7) / 8 && bb.take bits.length == bits && allFalse (bb.drop bits.length)
+
+/-- `got` is `want` with `< unit` zero bits in front, total length a multiple of `unit` -/
+def leftPaddedEq (unit : Nat) (got want : Bits) : Bool :=
+  let pad := got.length - want.length
+  got.length ≥ want.length && pad < unit && got.length % unit == 0
+    && allFalse (got.take pad) && got.drop pad == want
+
+def parseBinaryObs (obs : String) : Option (Nat × Bits) :=
+  match obs.splitOn ":" with
+  | ["b", u, n, h] => do
+    let u ← u.toNat?
+    let n ← n.toNat?
+    let bytes ← bytesOfHex h
+    let bb := bytesToBits bytes
+    guard (bytes.length == (n + 7) / 8 && allFalse (bb.drop n))
+    pure (u, bb.take n)
+  | _ => none
+
+def parseTagged (tag : String) (obs : String) : Option (List UInt8) :=
+  match obs.splitOn ":" with
+  | [t, h] => if t == tag then bytesOfHex h else none
+  | _ => none
+
+def charsOfBytes (bs : List UInt8) : List Char := bs.map fun b => Char.ofNat b.toNat
+
+/-- does the rendering `obs` (format `f`) encode exactly the reader bits `bits`? -/
+def checkRender (f : String) (sb : Nat) (bits : Bits) (obs : String) : Except String Unit :=
+  let str := parseTagged "s" obs
+  match f with
+  | "string" =>
+    match str with
+    | some b => if rightPaddedEq b bits then .ok () else .error "string: bytes are not the value's bits"
+    | none => .error "string: not a string"
+  | "hex" =>
+    match str with
+    | some b =>
+      let cs := charsOfBytes b
+      match bytesOfHexChars cs with
+      | some d => if rightPaddedEq d bits && hexChars d == cs then .ok () else .error "hex: decodes to other bits"
+      | none => .error "hex: not hex"
+    | none => .error "hex: not a string"
+  | "base64" =>
+    match str with
+    | some b =>
+      match b64decode (charsOfBytes b) with
+      | some d => if rightPaddedEq d bits then .ok () else .error "base64: decodes to other bits"
+      | none => .error "base64: not canonical base64"
+    | none => .error "base64: not a string"
+  | "byte_array" =>
+    match parseTagged "a" obs with
+    | some d => if rightPaddedEq d bits then .ok () else .error "byte_array: other bits"
+    | none => .error "byte_array: not an array of bytes"
+  | "md5" =>
+    match str with
+    | some b => if charsOfBytes b == hexChars (C05Md5.digest (packR bits)) then .ok () else .error "md5: not the digest of the value's bytes"
+    | none => .error "md5: not a string"
+  | "truncate" =>
+    match str with
+    | some b => if rightPaddedEq b (bits.take (truncateBytes * 8)) then .ok () else .error "truncate: not the first 1024 bytes"
+    | none => .error "truncate: not a string"
+  | "snippet" =>
+    match str with
+    | some b =>
+      let cs := charsOfBytes b
+      match cs with
+      | '<' :: rest =>
+        let size := rest.takeWhile (· ≠ '>')
+        let payload := (rest.dropWhile (· ≠ '>')).drop 1
+        if size != stringByteBits sb bits.length then .error "snippet: wrong size" else
+        match b64decode payload with
+        | some d => if rightPaddedEq d (bits.take (snippetBytes * 8)) then .ok () else .error "snippet: payload is not the first 256 bytes"
+        | none => .error "snippet: payload not base64"
+      | _ => .error "snippet: no '<'"
+    | none => .error "snippet: not a string"
+  | _ => .error "unknown format"
+
+/-- the property on one observation; `vb` = the specification's bits of the value -/
+def checkProp (vb : Bits) (op obs : String) : Except String Unit :=
+  let unitOf (u p : Nat) : Nat := if u * p = 0 then u else u * p
+  let bin (u p : Nat) : Except String Unit :=
+    match parseBinaryObs obs with
+    | some (u', bits) =>
+      if u' != u then .error s!"unit {u'}"
+      else if leftPaddedEq (unitOf u p) bits vb then .ok ()
+      else .error "bits are not the value's range (allowing zero padding in front)"
+    | none => .error "not a binary"
+  match op.splitOn ":" with
+  | ["tobits"] =>
+    match parseBinaryObs obs with
+    | some (u, bits) => if u == 1 && bits == vb then .ok () else .error "tobits is not the slice of the buffer"
+    | none => .error "not a binary"
+  | ["tobytes"] => bin 8 0
+  | ["tobits", p] => match p.toNat? with | some p => bin 1 p | none => .error "bad p"
+  | ["tobytes", p] => match p.toNat? with | some p => bin 8 p | none => .error "bad p"
+  | ["fmt", f, sb] => match sb.toNat? with | some sb => checkRender f sb vb obs | none => .error "bad sb"
+  | ["rfmt8", f, sb] =>
+    match sb.toNat? with
+    | some sb => checkRender f sb (List.replicate ((8 - vb.length % 8) % 8) false ++ vb) obs
+    | none => .error "bad sb"
+  | ["rfmt1", f, sb] => match sb.toNat? with | some sb => checkRender f sb vb obs | none => .error "bad sb"
+  | ["stdout"] | ["stdoutr"] =>
+    match parseTagged "o" obs with
+    | some b => if leftPaddedEq 8 (bytesToBits b) vb then .ok () else .error "raw stdout is not the value's bytes"
+    | none => .error "no stdout"
+  | _ => .error "unknown op"
+
+def step (op obs : String) : String :=
+  match parseCase op with
+  | none => "BADOP parse"
+  | some c =>
+    let obss := obs.splitOn ";"
+    if obss.length != c.ops.length then s!"BADOP {c.ops.length} ops, {obss.length} observations" else
+    match c.dv with
+    | none => "BADOP window does not start at or before the range"
+    | some v =>
+      -- the specification's range: the reported range; a root value starts at bit 0 of its buffer
+      -- unless its Range is already expressed in its own buffer (flag F)
+      let es := if c.isRoot && !c.ownCoord then 0 else v.start
+      let inRange := es + c.len ≤ v.root.length
+      let vb := valueBits v.root es c.len
+      let topBad := c.top && !(c.isRoot && c.len == c.L && c.woff == 0 && c.wbits.length == c.L)
+      let rs := (c.ops.zip obss).map fun (o, ob) =>
+        let m := modelObs v o
+        let p : Except String Unit :=
+          if topBad then .error "the top value is not the whole input"
+          else if c.synth then (if ob.startsWith "err:" then .ok () else .error "synthetic value has bits")
+          else if !inRange then (if ob.startsWith "err:" then .ok () else .error "range outside buffer but no error")
+          else checkProp vb o ob
+        (o, ob, m, p)
+      let bad := rs.find? fun (_, _, m, _) => m.isNone
+      let pf := rs.find? fun (_, _, _, p) => match p with | .error _ => true | .ok _ => false
+      let dv := rs.find? fun (_, ob, m, _) => m != some ob
+      match bad with
+      | some (o, _, _, _) => s!"BADOP op {o}"
+      | none =>
+        let divS := match dv with
+          | some (o, _, m, _) => s!"op={o} model={(m.getD "").take 200}"
+          | none => ""
+        match pf with
+        | some (o, _, _, .error why) =>
+          s!"PROPFAIL op={o} {why}" ++ (if divS.isEmpty then "" else s!" ;DIVERGE {divS}")
+        | _ => if divS.isEmpty then "OK" else s!"DIVERGE {divS}"
+
+end DrvC05
+
+def main : IO Unit := run DrvC05.step
